@@ -333,10 +333,25 @@ func c06PPOracle(c c06PPCase) error {
 	defer os.Remove(f.Name())
 	f.Write(x)
 	f.Close()
+	// The last helper process first scans the same dump with its symbols spelled the other way
+	// (the runtime escapes a dot in the last import path element as %2e, other producers do
+	// not): an earlier call in the same process must not change the result.
+	twin := bytes.ReplaceAll(x, []byte("%2e"), []byte("."))
+	tf, err := os.CreateTemp(os.Getenv("VERIF_WORK"), "twin*.txt")
+	if err != nil {
+		return fmt.Errorf("HARNESS: %v", err)
+	}
+	defer os.Remove(tf.Name())
+	tf.Write(twin)
+	tf.Close()
 	var ref []byte
 	for k := 0; k < 3; k++ {
 		cmd := exec.Command(os.Args[0], "-test.run", "^TestHelperSnapdump$", "-test.count=1")
 		cmd.Env = append(os.Environ(), "VERIF_HELPER_INPUT="+f.Name(), "VERIF_STATS_DIR=")
+		if k == 2 && !bytes.Equal(twin, x) {
+			cmd.Env = append(cmd.Env, "VERIF_HELPER_FIRST="+tf.Name())
+			statsFor("C06").class("helper_process_scanning_the_other_spelling_first", 1)
+		}
 		out, err := cmd.Output()
 		if err != nil {
 			return fmt.Errorf("HARNESS: helper: %v", err)
@@ -367,6 +382,11 @@ func TestHelperSnapdump(t *testing.T) {
 	x, err := os.ReadFile(p)
 	if err != nil {
 		t.Fatal(err)
+	}
+	if fp := os.Getenv("VERIF_HELPER_FIRST"); fp != "" {
+		if first, err := os.ReadFile(fp); err == nil {
+			_, _ = runPipeline(first, &stack.Opts{NameArguments: true}, false)
+		}
 	}
 	r, err := runPipeline(x, &stack.Opts{NameArguments: true}, false)
 	if err != nil {
